@@ -21,9 +21,11 @@ import (
 	"io"
 	"net"
 	"net/http"
+	"net/http/httptest"
 	"os"
 	"path"
 	"path/filepath"
+	"runtime"
 	"sort"
 	"strconv"
 	"strings"
@@ -68,6 +70,28 @@ type c18In struct {
 	// burst: concurrent requests, each with its own generated writes
 	Burst  [][]c18BigW `json:"burst,omitempty"`
 	Rounds int         `json:"rounds,omitempty"`
+	// history: requests sent (one after the other) before every round of the burst; their own
+	// responses are not judged (most of them break the handler contract), what is judged is that
+	// they leave nothing behind that changes a later response
+	Pre []c18Pre `json:"pre,omitempty"`
+	// the handlers of one round wait for one another after their first write, so that all of
+	// them hold their pooled writer at the same time
+	Hold bool `json:"hold,omitempty"`
+	// GOMAXPROCS during the burst (0 = unchanged): 1 makes sync.Pool hand out its contents in a
+	// fixed order, more exposes real parallelism
+	Procs int `json:"procs,omitempty"`
+	// the gzip middleware is set up from the same directive text but chained directly in front of
+	// the probe, without the errors middleware that a Casketfile site always gets inside gzip:
+	// an error status of the handler then reaches Gzip.ServeHTTP itself
+	Direct bool `json:"direct,omitempty"`
+}
+
+// c18Pre is one request of the history of a burst.
+type c18Pre struct {
+	Kind   string `json:"kind"`            // ok | err | err-after-write | panic-after-write | abort | plain
+	Status int    `json:"status,omitempty"` // status the handler returns (err kinds)
+	N      int    `json:"n,omitempty"`      // bytes written before that
+	Flush  bool   `json:"flush,omitempty"`
 }
 type c18BigW struct {
 	N     int  `json:"n"`
@@ -119,9 +143,46 @@ func (p c18Probe) ServeHTTP(w http.ResponseWriter, r *http.Request) (int, error)
 			if f, ok := w.(http.Flusher); ok {
 				f.Flush()
 			}
+		case "sync":
+			c18Barrier.wait()
+		case "panic":
+			panic("c18probe: scripted panic")
 		}
 	}
 	return sc.ret, nil
+}
+
+// c18Barrier lets the handlers of one burst round meet: each waits until all have arrived (or
+// a timeout passes: a request that never reaches its handler must not hang the others).
+var c18Barrier c18BarrierT
+
+type c18BarrierT struct {
+	sync.Mutex
+	target, arrived int
+	ch              chan struct{}
+}
+
+func (b *c18BarrierT) reset(n int) {
+	b.Lock()
+	b.target, b.arrived, b.ch = n, 0, make(chan struct{})
+	b.Unlock()
+}
+func (b *c18BarrierT) wait() {
+	b.Lock()
+	ch := b.ch
+	if ch == nil {
+		b.Unlock()
+		return
+	}
+	b.arrived++
+	if b.arrived == b.target {
+		close(ch)
+	}
+	b.Unlock()
+	select {
+	case <-ch:
+	case <-time.After(400 * time.Millisecond):
+	}
 }
 
 // ---------------------------------------------------------------------------------------------
@@ -155,6 +216,38 @@ func c18Site(body string) (*liveSite, error) {
 	s := &liveSite{inst: inst, addr: "127.0.0.1:" + port, text: body}
 	c18Sites[body] = s
 	return s, nil
+}
+
+// c18DirectSite chains the gzip middleware configured by text directly in front of the probe
+// and serves it with net/http; the outermost function does what Server.ServeHTTP does with the
+// result of the chain (recover, error text for a status >= 400).
+var c18Direct = map[string]string{}
+
+func c18DirectSite(text string) (string, error) {
+	if a, ok := c18Direct[text]; ok {
+		return a, nil
+	}
+	c18Register()
+	sc, err := setupDirective("gzip", text)
+	if err != nil {
+		return "", err
+	}
+	chain := compile(sc.Middleware(), c18Probe{next: handlerFunc(func(w http.ResponseWriter, r *http.Request) (int, error) {
+		return http.StatusNotFound, nil
+	})})
+	srv := httptest.NewServer(http.HandlerFunc(func(w http.ResponseWriter, r *http.Request) {
+		defer func() {
+			if rec := recover(); rec != nil {
+				httpserver.DefaultErrorFunc(w, r, http.StatusInternalServerError)
+			}
+		}()
+		status, _ := chain.ServeHTTP(w, r)
+		if status >= 400 {
+			httpserver.DefaultErrorFunc(w, r, status)
+		}
+	}))
+	c18Direct[text] = srv.Listener.Addr().String()
+	return c18Direct[text], nil
 }
 
 func c18Quote(s string) string {
@@ -573,6 +666,16 @@ func c18Hazard(in *c18In) string {
 	if in.NoAE {
 		ae = ""
 	}
+	if in.Kind == "static" {
+		// an element that strings.TrimSpace turns into the name of a sibling coding while the
+		// RFC's OWS (SP / HTAB) trimming does not: Unicode white space around the name
+		for _, e := range strings.Split(ae, ",") {
+			t := strings.TrimSpace(e)
+			if (t == "gzip" || t == "br" || t == "zstd") && strings.Trim(e, " \t") != t {
+				return "ae:unicode-space"
+			}
+		}
+	}
 	if strings.Contains(ae, "gzip") && !c18RFCOffersGzip(ae) {
 		if strings.Contains(strings.ReplaceAll(ae, " ", ""), "gzip;q=0") {
 			return "ae:gzip-q0"
@@ -650,6 +753,46 @@ func c18BigScript(ws []c18BigW) ([]c18Op, int) {
 		}
 	}
 	return script, total
+}
+
+// c18PreScript is the handler script of one request of a burst's history.
+func c18PreScript(p c18Pre) c18Script {
+	body, _ := c18BigScript([]c18BigW{{N: p.N, Seed: p.N + p.Status, Flush: p.Flush}})
+	switch p.Kind {
+	case "err":
+		return c18Script{ret: p.Status}
+	case "err-after-write":
+		return c18Script{script: body, ret: p.Status}
+	case "panic-after-write":
+		return c18Script{script: append(body, c18Op{K: "panic"})}
+	case "abort":
+		big, _ := c18BigScript([]c18BigW{{N: 300000, Rnd: true, Seed: p.N, Flush: true}, {N: 300000, Rnd: true, Seed: p.N + 1, Flush: true},
+			{N: 300000, Rnd: true, Seed: p.N + 2}})
+		return c18Script{script: big}
+	}
+	return c18Script{script: body} // ok, plain
+}
+
+// c18DoPre sends one request of the history and says briefly what came back.
+func c18DoPre(addr, method, target, id string, p c18Pre, in *c18In) string {
+	h := map[string]string{"X-C18-Probe": id}
+	if !in.NoAE && p.Kind != "plain" {
+		h["Accept-Encoding"] = in.AE
+	}
+	if p.Kind == "abort" {
+		// read the beginning of the response, then hang up
+		conn, err := net.DialTimeout("tcp", addr, 2*time.Second)
+		if err != nil {
+			return p.Kind + ":dial-error"
+		}
+		fmt.Fprintf(conn, "%s %s HTTP/1.1\r\nHost: %s\r\nAccept-Encoding: %s\r\nX-C18-Probe: %s\r\nConnection: close\r\n\r\n", method, target, addr, h["Accept-Encoding"], id)
+		conn.SetDeadline(time.Now().Add(2 * time.Second))
+		io.ReadFull(conn, make([]byte, 512))
+		conn.Close()
+		return p.Kind
+	}
+	o := c18Do(addr, method, target, h)
+	return fmt.Sprintf("%s:%d:ce=%s:len=%d:decodes=%v", p.Kind, o.Status, strings.Join(o.CE, "+"), len(o.Body), o.VOK)
 }
 
 func c18Skip(class, why string) Result {
@@ -746,28 +889,61 @@ func c18Run(in0 interface{}) Result {
 		return Result{Term: term, Obs: map[string]interface{}{"G": G.brief(), "P": P.brief(), "total": total}, Sig: "big",
 			Class: fmt.Sprintf("big:gz=%v", len(G.CE) == 1), Nontrivial: len(G.CE) == 1, Key: fmt.Sprintf("%v|%s|%s", in.Big, ae, in.Path)}
 	case "burst":
-		// concurrent requests through the same pooled writers; every response must decode to
-		// its own request's body
+		// a history of requests (error after a partial compressed body, panics, aborted
+		// downloads, ...) followed by concurrent requests through the same pooled writers:
+		// every response of the burst must decode to its own request's body
+		gaddr := gsite.addr
+		if in.Direct {
+			a, err := c18DirectSite(c18CfgText(in.Cfgs))
+			if err != nil {
+				return c18Skip(in.Kind+":setup-error", "direct gzip chain: "+err.Error())
+			}
+			gaddr = a
+		}
+		if in.Procs > 0 {
+			old := runtime.GOMAXPROCS(in.Procs)
+			defer runtime.GOMAXPROCS(old)
+		}
 		c18Burst.Lock()
 		c18Burst.m = map[string]c18Script{}
 		want := make([][]byte, len(in.Burst))
 		for i, ws := range in.Burst {
 			script, _ := c18BigScript(ws)
+			if in.Hold {
+				// meet the other handlers of the round right after the first write
+				for k, o := range script {
+					if o.K == "w" {
+						script = append(script[:k+1], append([]c18Op{{K: "sync"}}, script[k+1:]...)...)
+						break
+					}
+				}
+			}
 			c18Burst.m[fmt.Sprintf("b%d", i)] = c18Script{script: script}
 			for _, o := range script {
 				want[i] = append(want[i], o.D...)
 			}
 		}
+		for k, p := range in.Pre {
+			c18Burst.m[fmt.Sprintf("p%d", k)] = c18PreScript(p)
+		}
 		c18Burst.Unlock()
+		defer c18Barrier.reset(0)
 		rounds := in.Rounds
 		if rounds <= 0 {
 			rounds = 1
 		}
-		sameStatus, sameView, ceExact, clFine := true, true, true, true
 		var firstBad map[string]interface{}
 		var mu sync.Mutex
-		ngz := 0
+		ngz, nbad := 0, 0
+		var resps []string
+		var preSeen []string
 		for round := 0; round < rounds; round++ {
+			c18Barrier.reset(0)
+			for k, p := range in.Pre {
+				preSeen = append(preSeen, c18DoPre(gaddr, method, in.Path, fmt.Sprintf("p%d", k), p, in))
+			}
+			c18Barrier.reset(len(in.Burst))
+			verdicts := make([]string, len(in.Burst))
 			var wg sync.WaitGroup
 			for i := range in.Burst {
 				wg.Add(1)
@@ -777,7 +953,7 @@ func c18Run(in0 interface{}) Result {
 					if !in.NoAE {
 						h["Accept-Encoding"] = in.AE
 					}
-					G := c18Do(gsite.addr, method, in.Path, h)
+					G := c18Do(gaddr, method, in.Path, h)
 					mu.Lock()
 					defer mu.Unlock()
 					st := G.Status == 200 && G.Err == ""
@@ -787,20 +963,35 @@ func c18Run(in0 interface{}) Result {
 					if len(G.CE) == 1 {
 						ngz++
 					}
-					if !(st && vw && ce && cl) && firstBad == nil {
-						firstBad = G.brief()
-						firstBad["request"] = i
-						firstBad["round"] = round
-						firstBad["want_len"] = len(want[i])
+					if !(st && vw && ce && cl) {
+						nbad++
+						if firstBad == nil {
+							firstBad = G.brief()
+							firstBad["request"] = i
+							firstBad["round"] = round
+							firstBad["want_len"] = len(want[i])
+						}
 					}
-					sameStatus, sameView, ceExact, clFine = sameStatus && st, sameView && vw, ceExact && ce, clFine && cl
+					verdicts[i] = "(" + cBool(st) + ", " + cBool(vw) + ", " + cBool(ce) + ", " + cBool(cl) + ")"
 				}(i)
 			}
 			wg.Wait()
+			resps = append(resps, verdicts...)
 		}
-		term := cApp("CBig", cBool(sameStatus), cBool(sameView), cBool(ceExact), cBool(clFine))
-		return Result{Term: term, Obs: map[string]interface{}{"requests": len(in.Burst) * rounds, "compressed": ngz, "first_bad": firstBad}, Sig: "burst",
-			Class: fmt.Sprintf("burst:gz=%v", ngz > 0), Nontrivial: ngz > 0, Key: fmt.Sprintf("%v|%s|%d", in.Burst, ae, rounds)}
+		kinds := map[string]bool{}
+		for _, p := range in.Pre {
+			kinds[p.Kind] = true
+		}
+		var ks []string
+		for k := range kinds {
+			ks = append(ks, k)
+		}
+		sort.Strings(ks)
+		term := cApp("CBurst", cN(uint64(len(in.Pre)*rounds)), cList(resps))
+		return Result{Term: term, Obs: map[string]interface{}{"requests": len(in.Burst) * rounds, "compressed": ngz, "bad": nbad, "first_bad": firstBad,
+			"history": preSeen}, Sig: "burst",
+			Class: fmt.Sprintf("burst:gz=%v:direct=%v:hold=%v:procs=%d:pre=%s", ngz > 0, in.Direct, in.Hold, in.Procs, strings.Join(ks, "+")), Nontrivial: ngz > 0,
+			Key: fmt.Sprintf("%v|%v|%s|%d|%v|%d|%v", in.Burst, in.Pre, ae, rounds, in.Hold, in.Procs, in.Direct)}
 	}
 	panic("bad kind " + in.Kind)
 }
@@ -1051,9 +1242,9 @@ func c18Gen(r *Rand, tier string) []interface{} {
 	// shifted by one draw; re-seed from a mixed output to decorrelate VERIF_SEED values
 	r = NewRand(r.U64())
 	var out []interface{}
-	nCfg, perCfgScript, perCfgStatic, nBig, nExt, nBurst := 14, 70, 60, 16, 150, 6
+	nCfg, perCfgScript, perCfgStatic, nBig, nExt, nBurst, nMatrix := 14, 70, 60, 16, 150, 10, 160
 	if tier == "thorough" {
-		nCfg, perCfgScript, perCfgStatic, nBig, nExt, nBurst = 48, 220, 180, 120, 1500, 40
+		nCfg, perCfgScript, perCfgStatic, nBig, nExt, nBurst, nMatrix = 48, 220, 180, 120, 1500, 80, 1800
 	}
 	c18Fixture()
 	var names []string
@@ -1120,6 +1311,62 @@ func c18Gen(r *Rand, tier string) []interface{} {
 			out = append(out, in)
 		}
 	}
+	// precompressed siblings: the full matrix siblings on disk (8) x codings offered (8) in the
+	// plain spelling, then random sibling sets x per-coding spellings (parameters, q-values,
+	// case, blanks, Unicode white space, near misses) in random order
+	codings := []string{"zstd", "br", "gzip"}
+	for mask := 0; mask < 8; mask++ {
+		for off := 0; off < 8; off++ {
+			var parts []string
+			for b, c := range codings {
+				if off&(4>>uint(b)) != 0 {
+					parts = append(parts, c)
+				}
+			}
+			if len(parts) == 0 {
+				parts = []string{"identity"}
+			}
+			cfgs := []c18Cfg{{}}
+			if (mask+off)%3 == 0 {
+				cfgs = c18GenCfgs(r)
+			}
+			out = append(out, &c18In{Kind: "static", Cfgs: cfgs, Method: "GET", Path: "/" + c18FixName("", mask, 37, ".html"), AE: strings.Join(parts, ", ")})
+		}
+	}
+	spell := []string{"%s", "%s", "%s", "%s;q=0", "%s; q=0.0", "%s;q=0.000", "%s ;q=0", "%s;Q=0", "%s;q=1", "%s;q=0.5", "%s;q=", " %s ", "\t%s",
+		"x%s", "%sx", "%s\u00a0", "\u2003%s", "%s\u0085", "%s;level=1"}
+	for i := 0; i < nMatrix; i++ {
+		var parts []string
+		for _, c := range codings {
+			if r.Chance(30) {
+				continue
+			}
+			sp := fmt.Sprintf(r.Pick(spell), c)
+			if r.Chance(8) {
+				sp = strings.ToUpper(sp)
+			}
+			parts = append(parts, sp)
+		}
+		if r.Chance(25) {
+			parts = append(parts, r.Pick([]string{"identity", "*", "*;q=0", "deflate", "identity;q=0"}))
+		}
+		perm := r.Perm(len(parts))
+		ps := make([]string, len(parts))
+		for a, b := range perm {
+			ps[a] = parts[b]
+		}
+		cfgs := []c18Cfg{{}}
+		if r.Chance(40) {
+			cfgs = c18GenCfgs(r)
+		}
+		in := &c18In{Kind: "static", Cfgs: cfgs, Method: "GET",
+			Path: "/" + c18FixName(r.Pick(c18FixDirs), r.Intn(8), c18PickInt(r, []int{0, 37, 400}), r.Pick(c18FixExts)),
+			AE:   strings.Join(ps, r.Pick([]string{",", ", ", " , "}))}
+		if r.Chance(6) {
+			in.Method = "HEAD"
+		}
+		out = append(out, in)
+	}
 	for i := 0; i < nBig; i++ {
 		in := &c18In{Kind: "big", Cfgs: []c18Cfg{{Level: r.Pick([]string{"", "1", "9"})}}, Method: "GET", Path: "/big.txt",
 			AE: r.Pick([]string{"gzip", "gzip", "gzip, br", "br", ""})}
@@ -1129,10 +1376,26 @@ func c18Gen(r *Rand, tier string) []interface{} {
 		}
 		out = append(out, in)
 	}
+	preKinds := []string{"err-after-write", "err-after-write", "err-after-write", "err", "ok", "panic-after-write", "abort", "plain"}
 	for i := 0; i < nBurst; i++ {
 		in := &c18In{Kind: "burst", Cfgs: []c18Cfg{{Level: r.Pick([]string{"", "1", "9"})}}, Method: "GET", Path: "/burst.txt",
 			AE: r.Pick([]string{"gzip", "gzip", "gzip, br"}), Rounds: 3}
-		for k := 0; k < 8; k++ {
+		// regimes in turn: one P (the pool hands out its contents in a fixed order), two, all
+		in.Procs = []int{1, 2, 0, 1}[i%4]
+		in.Hold = i%4 != 2 || r.Bool()
+		in.Direct = i%3 != 2
+		// history before every round: none for every fifth burst, else one to four requests
+		if i%5 != 4 {
+			for k := r.Range(1, 4); k > 0; k-- {
+				in.Pre = append(in.Pre, c18Pre{Kind: r.Pick(preKinds), Status: c18PickInt(r, []int{500, 502, 404, 400, 503}),
+					N: c18PickInt(r, []int{1, 100, 720, 5000, 40000}), Flush: r.Chance(30)})
+			}
+		}
+		nreq := 8
+		if in.Procs == 1 {
+			nreq = r.Range(2, 6)
+		}
+		for k := 0; k < nreq; k++ {
 			var ws []c18BigW
 			for j := r.Range(1, 3); j > 0; j-- {
 				ws = append(ws, c18BigW{N: c18PickInt(r, []int{100, 5000, 40000, 150000}), Rnd: r.Chance(30), Flush: r.Chance(20), Seed: r.Intn(1 << 20)})
@@ -1265,7 +1528,7 @@ func init() {
 	registerGen("Gen_C18.v", c18GenCoq)
 	register(&Property{
 		ID: "C18", Imports: "V.Lib V.C18_LibPack V.C18_Model", Judge: "judge", Shard: 120,
-		Rule: "every case = two real round trips (site with the gzip blocks / same site without) with a scripted innermost handler (header ops, WriteHeader, chunked Writes, Flushes, error returns, already-encoded bodies in real gzip/br/zstd/deflate) or casket's file server on files with all 8 sibling combinations; non-trivial = the gzip layer compressed, or the inner response was already encoded; distinct = distinct case term",
+		Rule: "every case = two real round trips (site with the gzip blocks / same site without) with a scripted innermost handler (header ops, WriteHeader, chunked Writes, Flushes, error returns, already-encoded bodies in real gzip/br/zstd/deflate) or casket's file server on files with all 8 sibling combinations; static cases include the full 8x8 matrix siblings on disk x codings offered and random sibling sets x per-coding spellings (q-values, parameters, case, blanks, Unicode white space, near misses); bursts = a history of requests (error status or panic after a partial compressed body, bare errors, aborted downloads) then concurrent requests whose handlers hold their pooled writers together, against the Casketfile site or the gzip chain without errors middleware, under GOMAXPROCS 1/2/all, every response decoded; non-trivial = the gzip layer compressed, or the inner response was already encoded; distinct = distinct case term",
 		Gen: c18Gen,
 		Decode: func(raw json.RawMessage) (interface{}, error) {
 			in := &c18In{}
